@@ -114,7 +114,7 @@ def leapfrog_preserves_volume(h, d, n, mass, bounded):
         return np.concatenate([t1, r1])
     J = h.jacobian(flow, x)
     h.assume_off_kinks()
-    h.eq("det(Jacobian)==1", stubs.det(J) if h.sym else np.linalg.det(J), 1.0, tol=1e-5)
+    h.eq("det(Jacobian)==1", stubs.det(J) if h.sym else np.linalg.det(J), 1.0, tol=1e-5, tol_abs=1e-4)
 
 
 QEN = [dict(d=1, n=1, mass="scalar"), dict(d=1, n=2, mass="scalar"), dict(d=2, n=1, mass="vector")]
@@ -133,7 +133,7 @@ def energy_error_is_third_order(h, d, n, mass):
         t1, r1 = chain.run_leapfrog(t0.copy(), r0.copy(), n)
         return chain.hamiltonian(t1, r1) - chain.hamiltonian(t0, r0)
     for order in (0, 1, 2):
-        h.eq(f"d^{order} dH / d eps^{order} at eps=0 is 0", h.derivative_at(dH, e, 0.0, order), 0.0, tol=2e-4)
+        h.eq(f"d^{order} dH / d eps^{order} at eps=0 is 0", h.derivative_at(dH, e, 0.0, order), 0.0, tol=2e-4, tol_abs=1e-4)
 
 
 @unit("C07", quick=[dict(d=1, mass="scalar"), dict(d=2, mass="vector"), dict(d=2, mass="matrix")],
